@@ -1,6 +1,289 @@
 package main
 
-type CallGraph struct{}
+// Call graph over the module's own SSA (dependencies have no bodies):
+//   * CHA graph — sound over-approximation, used to decide that code is dead (unreachable from main);
+//   * VTA graph seeded by CHA — more precise, used for path rules (panic reachability, taint);
+//   * "external higher-order" edges: a function value passed to a body-less function
+//     (mux.HandleFunc, retry.Do, sort.Slice, …) is assumed to be called by it, in the caller's goroutine.
 
-func (c *Ctx) cgStats() map[string]interface{} { return nil }
-func (c *Ctx) countFuncs() int                 { return 0 }
+import (
+	"go/types"
+	"sort"
+	"strings"
+
+	"golang.org/x/tools/go/callgraph"
+	"golang.org/x/tools/go/callgraph/cha"
+	"golang.org/x/tools/go/callgraph/vta"
+	"golang.org/x/tools/go/ssa"
+	"golang.org/x/tools/go/ssa/ssautil"
+)
+
+type CGEdge struct {
+	Callee *ssa.Function
+	Site   ssa.Instruction // nil for synthetic edges
+	Kind   string          // call | go | defer | hof (passed to external higher-order function)
+}
+
+type CallGraph struct {
+	prog    *ssa.Program
+	funcs   map[*ssa.Function]bool
+	chaOut  map[*ssa.Function][]CGEdge
+	vtaOut  map[*ssa.Function][]CGEdge
+	live    map[*ssa.Function]bool // CHA-reachable from main.main and package initialisers
+	nCHA    int
+	nVTA    int
+	nHOF    int
+	byObj   map[*types.Func]*ssa.Function
+	mainPkg *ssa.Package
+}
+
+func (c *Ctx) CG() *CallGraph {
+	if c.cg != nil {
+		return c.cg
+	}
+	prog := c.SSA()
+	g := &CallGraph{prog: prog, funcs: ssautil.AllFunctions(prog), chaOut: map[*ssa.Function][]CGEdge{}, vtaOut: map[*ssa.Function][]CGEdge{},
+		live: map[*ssa.Function]bool{}, byObj: map[*types.Func]*ssa.Function{}}
+	for fn := range g.funcs {
+		if obj, ok := fn.Object().(*types.Func); ok && fn.Synthetic == "" {
+			g.byObj[obj] = fn
+		}
+	}
+	chaG := cha.CallGraph(prog)
+	conv := func(cg *callgraph.Graph, out map[*ssa.Function][]CGEdge) int {
+		n := 0
+		for fn, node := range cg.Nodes {
+			if fn == nil {
+				continue
+			}
+			for _, e := range node.Out {
+				if e.Callee == nil || e.Callee.Func == nil {
+					continue
+				}
+				kind := "call"
+				switch e.Site.(type) {
+				case *ssa.Go:
+					kind = "go"
+				case *ssa.Defer:
+					kind = "defer"
+				}
+				out[fn] = append(out[fn], CGEdge{Callee: e.Callee.Func, Site: e.Site, Kind: kind})
+				n++
+			}
+		}
+		return n
+	}
+	g.nCHA = conv(chaG, g.chaOut)
+	vtaG := vta.CallGraph(g.funcs, chaG)
+	g.nVTA = conv(vtaG, g.vtaOut)
+	// external higher-order edges
+	for fn := range g.funcs {
+		for _, b := range fn.Blocks {
+			for _, ins := range b.Instrs {
+				ci, ok := ins.(ssa.CallInstruction)
+				if !ok {
+					continue
+				}
+				com := ci.Common()
+				external := false
+				if sc := com.StaticCallee(); sc != nil {
+					external = len(sc.Blocks) == 0
+				} else if com.IsInvoke() {
+					// interface method of a type declared outside the module
+					if m := com.Method; m != nil && m.Pkg() != nil && !strings.HasPrefix(m.Pkg().Path(), modPath) {
+						external = true
+					}
+				}
+				if !external {
+					continue
+				}
+				kind := "hof"
+				if _, isGo := ins.(*ssa.Go); isGo {
+					kind = "go-hof"
+				}
+				for _, a := range com.Args {
+					for _, target := range funcValues(a, 0) {
+						e := CGEdge{Callee: target, Site: ins, Kind: kind}
+						g.chaOut[fn] = append(g.chaOut[fn], e)
+						g.vtaOut[fn] = append(g.vtaOut[fn], e)
+						g.nHOF++
+					}
+				}
+			}
+		}
+	}
+	// reference edges (liveness only): a function that takes the address of G (closure creation, function used as a value)
+	// may hand it to code that calls it later; a module value converted to an interface declared outside the module may have
+	// that interface's methods called by the dependency.
+	refOut := map[*ssa.Function][]*ssa.Function{}
+	for fn := range g.funcs {
+		for _, b := range fn.Blocks {
+			for _, ins := range b.Instrs {
+				var ops [16]*ssa.Value
+				for _, op := range ins.Operands(ops[:0]) {
+					if op == nil || *op == nil {
+						continue
+					}
+					if tf, ok := (*op).(*ssa.Function); ok {
+						if ci, isCall := ins.(ssa.CallInstruction); isCall && ci.Common().Value == *op {
+							continue // static call position
+						}
+						refOut[fn] = append(refOut[fn], tf)
+					}
+				}
+				if mc, ok := ins.(*ssa.MakeClosure); ok {
+					if tf, ok := mc.Fn.(*ssa.Function); ok {
+						refOut[fn] = append(refOut[fn], tf)
+					}
+				}
+				if mi, ok := ins.(*ssa.MakeInterface); ok {
+					// every method of the concrete type may be invoked by a dependency through some interface
+					ms := prog.MethodSets.MethodSet(mi.X.Type())
+					for i := 0; i < ms.Len(); i++ {
+						if m := prog.MethodValue(ms.At(i)); m != nil && m.Pkg != nil && strings.HasPrefix(m.Pkg.Pkg.Path(), modPath) {
+							if !types.IsInterface(mi.Type()) {
+								continue
+							}
+							it := mi.Type().Underlying().(*types.Interface)
+							if it.NumMethods() == 0 || hasMethodNamed(it, m.Name()) {
+								refOut[fn] = append(refOut[fn], m)
+							}
+						}
+					}
+				}
+			}
+		}
+	}
+	// liveness
+	var roots []*ssa.Function
+	for _, p := range prog.AllPackages() {
+		if p.Pkg.Path() == modPath {
+			g.mainPkg = p
+			if m := p.Func("main"); m != nil {
+				roots = append(roots, m)
+			}
+		}
+		if strings.HasPrefix(p.Pkg.Path(), modPath) {
+			if in := p.Func("init"); in != nil {
+				roots = append(roots, in)
+			}
+		}
+	}
+	var walk func(fn *ssa.Function)
+	walk = func(fn *ssa.Function) {
+		if g.live[fn] {
+			return
+		}
+		g.live[fn] = true
+		if o := fn.Origin(); o != nil {
+			g.live[o] = true
+		}
+		for _, e := range g.chaOut[fn] {
+			walk(e.Callee)
+		}
+		for _, t := range refOut[fn] {
+			walk(t)
+		}
+		// anonymous functions are live with their parent only if referenced; MakeClosure references are covered by CHA edges of their callers.
+	}
+	for _, r := range roots {
+		walk(r)
+	}
+	c.cg = g
+	return g
+}
+
+// funcValues: the functions a value may denote when it is syntactically a function, closure, bound method or a conversion of one.
+func funcValues(v ssa.Value, depth int) []*ssa.Function {
+	if depth > 4 {
+		return nil
+	}
+	switch x := v.(type) {
+	case *ssa.Function:
+		return []*ssa.Function{x}
+	case *ssa.MakeClosure:
+		if fn, ok := x.Fn.(*ssa.Function); ok {
+			return []*ssa.Function{fn}
+		}
+	case *ssa.ChangeType:
+		return funcValues(x.X, depth+1)
+	case *ssa.MakeInterface:
+		return funcValues(x.X, depth+1)
+	case *ssa.Phi:
+		var out []*ssa.Function
+		for _, e := range x.Edges {
+			out = append(out, funcValues(e, depth+1)...)
+		}
+		return out
+	}
+	return nil
+}
+
+func (c *Ctx) cgStats() map[string]interface{} {
+	if c.cg == nil {
+		return nil
+	}
+	nl := 0
+	for range c.cg.live {
+		nl++
+	}
+	return map[string]interface{}{"functions": len(c.cg.funcs), "cha_edges": c.cg.nCHA, "vta_edges": c.cg.nVTA, "higher_order_edges_to_external": c.cg.nHOF, "live_functions": nl,
+		"note": "SSA bodies for the module only; dependencies are body-less; function values passed to body-less callees are assumed called"}
+}
+
+func (c *Ctx) countFuncs() int {
+	if c.cg != nil {
+		return len(c.cg.funcs)
+	}
+	n := 0
+	for range ssautil.AllFunctions(c.prog) {
+		n++
+	}
+	return n
+}
+
+// Live reports whether the declared function is reachable from main (CHA). Unknown objects are live.
+func (c *Ctx) Live(obj types.Object) bool {
+	fn, ok := obj.(*types.Func)
+	if !ok {
+		return true
+	}
+	g := c.CG()
+	sf := g.byObj[fn]
+	if sf == nil {
+		return true
+	}
+	return g.live[sf]
+}
+
+func (c *Ctx) LiveFunc(fi *FuncInfo) bool {
+	return c.Live(fi.Pkg.TypesInfo.Defs[fi.Decl.Name])
+}
+
+func ssaName(fn *ssa.Function) string {
+	if fn == nil {
+		return "?"
+	}
+	s := fn.String()
+	s = strings.ReplaceAll(s, modPath+"/", "")
+	s = strings.ReplaceAll(s, modPath, "")
+	return s
+}
+
+func sortedFuncs(m map[*ssa.Function]bool) []*ssa.Function {
+	var out []*ssa.Function
+	for f := range m {
+		out = append(out, f)
+	}
+	sort.Slice(out, func(i, j int) bool { return out[i].String() < out[j].String() })
+	return out
+}
+
+func hasMethodNamed(it *types.Interface, name string) bool {
+	for i := 0; i < it.NumMethods(); i++ {
+		if it.Method(i).Name() == name {
+			return true
+		}
+	}
+	return false
+}
